@@ -40,9 +40,12 @@ theorem C15_dyn_command_inv (name : Str) (args : List Str) (out : Option Str) (l
         · -- stput
           split at h <;> (cases h; exact hi)
         · split at h
-          · -- stget
+          · -- vset
             split at h <;> (cases h; exact hi)
-          · split at h <;> (cases h; exact hi)
+          · split at h
+            · -- stget
+              split at h <;> (cases h; exact hi)
+            · split at h <;> (cases h; exact hi)
 
 /-- `run_instruction` keeps it -/
 theorem C15_dyn_instruction_inv (vars : Vars) (s : DynSt) (i : Instruction) (line : Nat)
